@@ -4,7 +4,7 @@
 set -u
 ID=$1; L=$2; PKG=$3; TIER=${4:-quick}
 export GOFLAGS=-mod=mod GOPROXY=off
-WT=/tmp/seed-$ID; OUT=/tmp/seed-out/$ID
+WT=/tmp/seed-$ID; OUT=${SEED_SRC:-/tmp/seed-out/$ID}; NAME=${SEED_NAME:-$ID-$L}
 [ -d "$WT" ] || git -C /repo worktree add -q --detach "$WT" HEAD
 git -C "$WT" checkout -q --detach "$(git -C /repo rev-parse HEAD)" 2>/dev/null
 git -C "$WT" checkout -q -- . ; git -C "$WT" clean -qfd
@@ -31,7 +31,7 @@ cd /verif && ./vcheck "$ID" "$TIER" > /tmp/seed-out/$ID.$L.vcheck.log 2>&1; rc=$
 git -C /repo checkout -- .
 grep -E '^(VIOLATION|  detail|OK|INFRA)' /tmp/seed-out/$ID.$L.vcheck.log | head -6
 echo "vcheck $ID $TIER rc=$rc"
-D=/verif/seeded/$ID-$L; mkdir -p "$D"
+D=/verif/seeded/$NAME; mkdir -p "$D"
 rm -rf "$D/replays"; [ -d /verif/replays/$ID ] && mv /verif/replays/$ID "$D/replays"
 cp "$PATCH" "$D/patch.diff"; cp "$DEMO" "$D/demo_test.go"; cp "$OUT/$L.meta.txt" "$D/meta.txt" 2>/dev/null
 python3 - "$ID" "$L" "$PKG" "$TIER" "$rc" "$D" <<'PY'
